@@ -114,7 +114,13 @@ def run(ctx):
                 'Non-trivial: histories in which a chunk file is created.')
     ctx.assumptions += ['CPython reference counting + gc.collect(); exception tracebacks are released by the harness before listing',
                         'interpreter exit is not modelled']
-    ctx.prove(['PetlProofs.Props.C18'], REQUIRED)
+    from translators import fingerprints as _fp
+    try:
+        _fpi = _fp.generate()
+        ctx.bridge('translator: fingerprints of the petl functions the hand-written models mirror (%d bodies)' % _fpi['names'], True)
+    except Exception as e:   # noqa
+        ctx.bridge('translator: source fingerprints extracted', False, repr(e))
+    ctx.prove(['PetlProofs.Props.C18', 'PetlProofs.Snapshot.C18'], REQUIRED + ['Petl.Snapshot.C18_sources_as_validated'])
     rng = ctx.rng
     tmpd = tempfile.mkdtemp(prefix='petl_c18_')
     lines, metas = [], []
